@@ -371,7 +371,8 @@ func fnReplacer(log *[]refre.Cap) func(m []uint16, caps []refre.Cap, pos int, s 
 		}
 		*log = append(*log, refre.Cap{Def: true, S: refre.Units(fmt.Sprintf("n%d", pos))})
 		*log = append(*log, enc(refre.Cap{Def: true, S: s}))
-		return refre.Units(fmt.Sprintf("<%d>", len(*log)))
+		// the text a function returns is inserted as it is: Table 22 applies to a string replaceValue only (15.5.4.11)
+		return refre.Units(fmt.Sprintf("<%d>$&$1$$$`$'$01", len(*log)))
 	}
 }
 
